@@ -21,7 +21,7 @@ EXPLANATION = (
     "(R8) the integer*continuous product helper every walk model uses is exact up to its bound (bit count proof and rows of C12.R2).  "
     " (R5, extended) premises of the flow-valued repetition cap of kFlowDecompCycles are checked in the code: own-flow values cap only non-ignored edges, the flow row is exact, and the weights are at least 1 when positive - the last premise fails for weight_type=float and is reported as the known finding cap-units (scale invariance of C04 does not hold for factors below 1); (R3, extended) the total handed to MinGenSet (out-flow minus in-flow with missing values read as 0) is used only when every edge has a flow value; (R9) the products x*g of MinGenSet are bounded by max(total, numbers) (C15.R6); (R2, extended) the k-range reaches |E| + number of subset constraints. "
     " (R10) as C03.R9 for MinFlowDecompCycles. "
-    "constraint route), so walks may still repeat a cycle as often as a minimum decomposition needs.  NOT decided: minimality, completeness, validity of the condensation width as a bound, "
+    "constraint route), so walks may still repeat a cycle as often as a minimum decomposition needs.  The cap of ignored edges adds the *sum* of the other caps (a max / min aggregate in its place is reported); the safety fixing / pruning rows of the walk base class conform to the table.  NOT decided: minimality, completeness, validity of the condensation width as a bound, "
     "scale invariance for non-integer weights."
     ' (R10, round 3) as C03.R9 for the cyclic class; the repetition cap of an ignored edge is structural (|E| + sum of the non-ignored flows), never a flow value or w_max.'
     ' (R10, round 4) cache ownership and purity of the reachability queries the default pruning reads (C17.R1 / R2).'
